@@ -76,7 +76,8 @@ def warm_start(
             logger.error("Warm start: No value for variable %s", var)
             raise SystemExit(1)
 
-        state.variables[var] = values
+        # Keep the dtype declared by the state (the boolean flags are stored as integers on file)
+        state.variables[var] = np.asarray(values, dtype=state.dtypes[var])
 
     # # Instance variables with default
     # if "alive" not in wvars:
